@@ -4,4 +4,6 @@ go 1.21
 
 require github.com/jsightapi/jsight-schema-go-library v0.0.0
 
+require github.com/lucasjones/reggen v0.0.0-20200904144131-37ba4fa293bb // indirect
+
 replace github.com/jsightapi/jsight-schema-go-library => /repo
